@@ -59,7 +59,7 @@ impl deku::no_std_io::Seek for Scripted {
     fn seek(&mut self, pos: deku::no_std_io::SeekFrom) -> deku::no_std_io::Result<u64> {
         use deku::no_std_io::SeekFrom;
         let (code, off, new) = match pos {
-            SeekFrom::Start(o) => (0, (o % (1 << 31)) as i64, o as i64 - self.base as i64),
+            SeekFrom::Start(o) => (0, (o % (1 << 31)) as i64, (i128::from(o) - i128::from(self.base)).clamp(-1, 1 << 40) as i64),
             SeekFrom::End(o) => (2, o, self.data.len() as i64 + o),
             SeekFrom::Current(o) => (1, o, self.pos as i64 + o),
         };
